@@ -322,6 +322,53 @@ func larkingFrame(blk string) string {
 	return ""
 }
 
+// larkingFrames lists the larking frames of a goroutine block, innermost
+// first.
+func larkingFrames(blk string) []string {
+	var out []string
+	for _, line := range strings.Split(blk, "\n") {
+		if strings.HasPrefix(line, "larking.io/larking.") {
+			f := strings.TrimPrefix(line, "larking.io/")
+			if i := strings.LastIndex(f, "("); i > 0 {
+				f = f[:i]
+			}
+			out = append(out, f)
+		}
+	}
+	return out
+}
+
+// stableWedgeFrame names the place of a wedge. A blocked goroutine always
+// shows the same stack; a spinning one is sampled in whatever leaf helper it
+// happens to run, so the goroutine is sampled a few more times and the
+// innermost larking frame common to all samples (the function that owns the
+// loop) is used.
+func stableWedgeFrame(gid int64, first string) string {
+	common := larkingFrames(first)
+	if len(common) == 0 {
+		return ""
+	}
+	buf := make([]byte, 4<<20)
+	for i := 0; i < 10 && len(common) > 1; i++ {
+		time.Sleep(15 * time.Millisecond)
+		blk := goroutineBlock(string(buf[:runtime.Stack(buf, true)]), gid)
+		fr := larkingFrames(blk)
+		if len(fr) == 0 {
+			break // the goroutine is gone or left larking: keep what we have
+		}
+		// longest common suffix (outermost frames aligned)
+		n := 0
+		for n < len(common) && n < len(fr) && common[len(common)-1-n] == fr[len(fr)-1-n] {
+			n++
+		}
+		if n == 0 {
+			break
+		}
+		common = common[len(common)-n:]
+	}
+	return common[0]
+}
+
 func entryClass(e string) string {
 	if strings.HasPrefix(e, "ws") || e == "sock-ws" {
 		return "websocket"
@@ -352,7 +399,7 @@ func judge(c *Case, o *outcome) (vs []viol, inconclusive string) {
 	}
 	if o.wedged {
 		blk := goroutineBlock(o.dump, o.gid)
-		if f := larkingFrame(blk); f != "" {
+		if f := stableWedgeFrame(o.gid, blk); f != "" {
 			vs = append(vs, viol{"wedge@" + f + ":" + entryClass(c.Entry), fmt.Sprintf("%s request fed from memory had not returned after %v; its goroutine is inside larking:\n%s", c.Entry, wire.WedgeTimeout, firstLines(blk, 24))})
 			return vs, ""
 		}
@@ -671,7 +718,7 @@ func sampleOf(c *Case) any {
 	return s
 }
 
-const ruleText = "requests = grammar-aware mutations of valid requests (plus raw bytes) built for every endpoint of (a) the testpb services registered with their generated Register*Server functions, (b) the standard harness service, (c) generated rule sets (multi-segment ** variables, typed variables, nested fields, variables / body / response_body selectors on scalar, repeated, map and message fields, websocket rules with and without body) and hand-written hostile sets; mutations cover paths (near misses, token soup, 63/64/65 tokens, invalid UTF-8, huge segments), query keys walking the schema, header tables, bodies (JSON junk, deep JSON, invalid protobuf, varint prefixes of 1-11 bytes, broken gzip, gRPC frames with lying length / flag fields, 0-4-byte messages, broken base64, hostile WebSocket frames) and the status the handler returns (any code incl. 17 and out-of-range, hostile messages, details, headers, trailers). Entries: http, grpc (ProtoMajor 2), grpc-web, grpc-web-text, WebSocket upgrade on a plain recorder, on a hijackable in-memory connection and on a real listener, HTTP/1 and h2c on a real listener (server built by larking.NewServer); every mask of {unary interceptor, stream interceptor, stats handler} plus small limits and an extra codec. Two more lanes: bursts of 16 goroutines serving gzip-compressed requests concurrently on one mux (pooled state), and the standard service proxied to a real grpc-go back-end through RegisterConn. Oracle: recover(), 20 s watchdog with goroutine dump, valid HTTP status, 'panic serving' in the server log, handlers' receive counter against the request size. distinct = (entry, target kind, option mask, first two mutation classes, outcome class)"
+const ruleText = "requests = grammar-aware mutations of valid requests (plus raw bytes) built for every endpoint of (a) the testpb services registered with their generated Register*Server functions, (b) the standard harness service, (c) generated rule sets (multi-segment ** variables, typed variables, nested fields, variables / body / response_body selectors on scalar, repeated, map and message fields, websocket rules with and without body) and hand-written hostile sets; mutations cover paths (near misses, token soup, 63/64/65 tokens, invalid UTF-8, huge segments), query keys walking the schema, header tables, header-value grammar (valid media-range / coding / token lists with every separator, control and non-ASCII byte, comments, quoted strings, unbalanced quotes and empty elements inserted at every lexical gap: random edits everywhere plus an exhaustive sweep over succeeding, handler-failing and route-failing requests of every entry), bodies (JSON junk, deep JSON, invalid protobuf, varint prefixes of 1-11 bytes, broken gzip, gRPC frames with lying length / flag fields, 0-4-byte messages, broken base64, hostile WebSocket frames) and the status the handler returns (any code incl. 17 and out-of-range, hostile messages, details, headers, trailers). Entries: http, grpc (ProtoMajor 2), grpc-web, grpc-web-text, WebSocket upgrade on a plain recorder, on a hijackable in-memory connection and on a real listener, HTTP/1 and h2c on a real listener (server built by larking.NewServer); every mask of {unary interceptor, stream interceptor, stats handler} plus small limits and an extra codec. Two more lanes: bursts of 16 goroutines serving gzip-compressed requests concurrently on one mux (pooled state), and the standard service proxied to a real grpc-go back-end through RegisterConn. Oracle: recover(), 20 s watchdog with goroutine dump, valid HTTP status, 'panic serving' in the server log, handlers' receive counter against the request size. distinct = (entry, target kind, option mask, first two mutation classes, outcome class)"
 
 // RunC09 is the robustness check.
 func RunC09(r *mon.Run) {
@@ -698,6 +745,9 @@ func RunC09(r *mon.Run) {
 		}(s)
 	}
 	wg.Wait()
+	if phase == "" || phase == "inproc" || phase == "sweep" {
+		runHeaderSweep(r)
+	}
 	if phase == "" || phase == "inproc" {
 		runBursts(r)
 	}
